@@ -16,11 +16,13 @@ Definition mon_order_shards_exist (s : State) : bool :=
   all_z (orders s) (fun _ o => forallb (fun id => bool_decide (is_Some (shards s !! id))) (o_shards o)).
 Definition mon_order_shards_nodup (s : State) : bool :=
   all_z (orders s) (fun _ o => bool_decide (NoDup (o_shards o))).
-(* root cause of finding D23: a renewal order copies a shard that is still being migrated *)
-Definition mon_renewal_no_migrating (s : State) : bool :=
-  all_z (orders s) (fun _ o =>
-    negb (o_op o =? 3) ||
-    forallb (fun id => match shards s !! id with Some sh => negb (sh_status sh =? ShardMigrating) | None => true end) (o_shards o)).
+(* root cause of finding D23: a shard under migration is listed by an order other than its own
+   (a renewal placed during the migration copies it). A migration started AFTER a renewal attaches the
+   new shard to the renewal order itself, which is benign and satisfies this clause
+   (Proofs/RefInt.v, no_renewal_of_migrating_benign). *)
+Definition mon_migrating_private (s : State) : bool :=
+  all_z (orders s) (fun oid o => forallb (fun id => match shards s !! id with
+     | Some sh => negb (sh_status sh =? ShardMigrating) || (sh_order sh =? oid) | None => true end) (o_shards o)).
 Definition mon_shard_has_order (s : State) : bool :=
   all_z (shards s) (fun id sh => match orders s !! sh_order sh with
                                 | Some o => inZ id (o_shards o)
@@ -51,6 +53,17 @@ Definition mon_meta_covers_shards (s : State) : bool :=
       | None => true   (* reported by shard_has_order *)
       end
     else true).
+(* ... and until the end of every prepaid renewal queued on the shards of its latest order *)
+Definition mon_meta_covers_renewals (s : State) : bool :=
+  all_s (metas s) (fun d m =>
+    match orders s !! m_order m with
+    | Some o =>
+        forallb (fun id => match shards s !! id with
+                           | Some sh => if (sh_status sh =? ShardCompleted) && (sh_order sh =? m_order m) || (sh_status sh =? ShardCompleted) && (o_op o =? 3)
+                                        then u64 (shard_end_all sh) <=? u64 (m_created m + m_duration m) else true
+                           | None => true end) (o_shards o)
+    | None => true
+    end).
 (* at block boundaries every scheduled height is in the future *)
 Definition mon_schedules_future (h : Z) (s : State) : bool :=
   all_z (expshards s) (fun k _ => h <? k) && all_z (expdata s) (fun k _ => h <? k).
@@ -141,16 +154,24 @@ Definition mon_super_ok (s : State) : bool :=
 Definition mon_no_residue (s : State) : bool := pg s =? 0.
 
 (** C12: an order handed to providers and not fully stored has a pending check *)
+(* the timeout check of an order gives up (and does not re-schedule) once the order's remaining
+   lifetime is shorter than its timeout: that case is defect D15 and has its own clause *)
+Definition long_timeout (h : Z) (o : Order) : bool := u64 (o_created o + o_duration o) <=? u64 (h + o_timeout o).
 Definition mon_timeout_scheduled (h : Z) (s : State) : bool :=
   all_z (orders s) (fun oid o =>
-    if (o_status o =? OrderDataReady) then
+    if (o_status o =? OrderDataReady) && negb (long_timeout h o) then
+      existsb (fun kv => (h <? kv.1) && inZ oid kv.2) (zitems (timeouts s))
+    else true).
+Definition mon_long_timeout_scheduled (h : Z) (s : State) : bool :=
+  all_z (orders s) (fun oid o =>
+    if (o_status o =? OrderDataReady) && long_timeout h o then
       existsb (fun kv => (h <? kv.1) && inZ oid kv.2) (zitems (timeouts s))
     else true).
 Definition mon_timeouts_future (h : Z) (s : State) : bool := all_z (timeouts s) (fun k _ => h <? k).
 
 Definition app_monitors (boundary : bool) (h : Z) (s : State) : list (string * bool) :=
   [ ("ref.order_shards_exist", mon_order_shards_exist s);
-    ("ref.renewal_lists_migrating", mon_renewal_no_migrating s);
+    ("ref.migrating_private", mon_migrating_private s);
     ("ref.order_shards_nodup", mon_order_shards_nodup s);
     ("ref.shard_has_order", mon_shard_has_order s);
     ("ref.completed_scheduled", mon_completed_scheduled s);
@@ -158,8 +179,10 @@ Definition app_monitors (boundary : bool) (h : Z) (s : State) : list (string * b
     ("sched.meta_scheduled", mon_meta_scheduled s);
     ("sched.expdata_live", mon_expdata_live s);
     ("sched.meta_covers_shards", mon_meta_covers_shards s);
+    ("sched.meta_covers_renewals", mon_meta_covers_renewals s);
     ("sched.future", negb boundary || mon_schedules_future h s);
     ("sched.timeout_scheduled", negb boundary || mon_timeout_scheduled h s);
+    ("sched.long_timeout_scheduled", negb boundary || mon_long_timeout_scheduled h s);
     ("sched.timeouts_future", negb boundary || mon_timeouts_future h s);
     ("cons.market_no_orphan", negb boundary || (market_surplus h s <? dec_of_int (Z.of_nat (S (length (zitems (shards s))) + length (zitems (orders s)))%nat * 4 + 8)));
     ("agg.used_is_sum", mon_used_is_sum s);
